@@ -663,6 +663,13 @@ func (r *runner) resolveCompletedTasks(ctx context.Context, completedTasks []*ta
 				if _, ok := writeChannelValues[next]; !ok {
 					writeChannelValues[next] = make(map[string]any)
 				}
+				if old, dup := writeChannelValues[next][t.nodeKey]; dup {
+					// the same successor is reached through a branch and through a (data) edge: one copy is delivered,
+					// the surplus stream copy has to be closed or its source is never released
+					if sr, ok := old.(streamReader); ok {
+						sr.close()
+					}
+				}
 				writeChannelValues[next][t.nodeKey] = vs[i]
 			}
 		}
